@@ -99,6 +99,16 @@ fn run_check(id: &str, tier: Tier) -> i32 {
             r.parts.push(c01::part_c02(tier));
             finish(r)
         }
+        "C03" => {
+            let mut r = Report::new("C03", tier, "model_checking");
+            r.parts.push(c01::part_c03(tier));
+            finish(r)
+        }
+        "C05" => {
+            let mut r = Report::new("C05", tier, "model_checking");
+            r.parts.push(c01::part_c05(tier));
+            finish(r)
+        }
         "C07" => {
             let mut r = Report::new("C07", tier, "exploration");
             r.parts.push(c07::part_parse(tier));
